@@ -32,3 +32,10 @@ Theorem C11_spec_bounded : forall c0 os,
   (length (smap (fst (srun (spec_init c0) os))) <= scap (fst (srun (spec_init c0) os)))%nat.
 Proof. exact spec_capacity. Qed.
 Print Assumptions C11_spec_bounded.
+
+(* the numbers and tables this property's model uses are the ones the sources declare: Model/GenConsts.v is
+   regenerated from the repository under test (tools/consts) before every build *)
+From V Require Import Model.GenConsts Proofs.TieC11.
+Theorem C11_constants_are_the_sources : TieC11.tie.
+Proof. exact TieC11.tie_holds. Qed.
+Print Assumptions C11_constants_are_the_sources.
